@@ -13,6 +13,7 @@ CONSTANTS
   Submittable <- N1Sub
   MaxSub = 1
   PNames <- P2
+  Observing = FALSE
 VIEW view
 INVARIANTS TypeOK StateIsMainChain NoStalePooled NoDupSlot ReadyRunsGapFree NoPooledTxOnMainChain ExecutedNoncesSequential NoHashExecutedTwice ProducedBlockIsValid
 PROPERTIES ReturnedToPool PoolChangesExplained NoChangeWithoutNewBest
